@@ -61,10 +61,11 @@ type Vote struct {
 }
 
 type Op struct {
-	Kind   string `json:"kind"` // delegate undelegate redelegate slash jail unjail endblock mint burn send stash unstash tally
+	Kind   string `json:"kind"` // delegate undelegate redelegate slash jail unjail endblock mint burn send stash unstash tally mintmsg burnmsg
 	A      int    `json:"a,omitempty"`
 	B      int    `json:"b,omitempty"`
 	V      int    `json:"v,omitempty"`
+	D      int    `json:"d,omitempty"` // mintmsg / burnmsg: the coin's denom: -1 the bond denom, d >= 0 the derivative of validator d
 	W      int    `json:"w,omitempty"` // redelegate destination
 	Amt    string `json:"amt,omitempty"`
 	Power  int64  `json:"power,omitempty"`
@@ -326,6 +327,13 @@ func coinU(amt *big.Int) sdk.Coin {
 	return sdk.Coin{Denom: "ukava", Amount: sdkmath.NewIntFromBigInt(amt)}
 }
 
+func (w *world) denomOf(d int) string {
+	if d < 0 {
+		return "ukava"
+	}
+	return w.denoms[d]
+}
+
 func inRangeA(a int) bool { return a >= 0 && a < nAcc }
 func inRangeU(a int) bool { return a >= 0 && a < nAcc && a != aLiq }
 func inRangeV(i int) bool { return i >= 0 && i < nVal }
@@ -336,6 +344,10 @@ func (w *world) exec(op Op) (res result) {
 	switch op.Kind {
 	case "delegate", "undelegate", "mint", "burn", "stash", "unstash":
 		if !inRangeU(op.A) || !inRangeV(op.V) {
+			return bad()
+		}
+	case "mintmsg", "burnmsg":
+		if !inRangeU(op.A) || !inRangeV(op.V) || !(op.D == -1 || inRangeV(op.D)) {
 			return bad()
 		}
 	case "redelegate":
@@ -435,6 +447,28 @@ func (w *world) exec(op Op) (res result) {
 			return err
 		case "burn":
 			msg := liquidtypes.NewMsgBurnDerivative(w.addrs[op.A], w.vals[op.V], sdk.Coin{Denom: w.denoms[op.V], Amount: sdkmath.NewIntFromBigInt(amt)})
+			if err := msg.ValidateBasic(); err != nil {
+				return err
+			}
+			r, err := liquidkeeper.NewMsgServerImpl(w.lk).BurnDerivative(g, &msg)
+			if err == nil {
+				res.shares = r.Received.BigInt()
+			}
+			return err
+		case "mintmsg":
+			// a mint message whose coin is of a denom of the sender's choosing
+			msg := liquidtypes.NewMsgMintDerivative(w.addrs[op.A], w.vals[op.V], sdk.Coin{Denom: w.denomOf(op.D), Amount: sdkmath.NewIntFromBigInt(amt)})
+			if err := msg.ValidateBasic(); err != nil {
+				return err
+			}
+			r, err := liquidkeeper.NewMsgServerImpl(w.lk).MintDerivative(g, &msg)
+			if err == nil {
+				res.shares = r.Received.Amount.BigInt()
+			}
+			return err
+		case "burnmsg":
+			// a burn message whose coin's denom and validator field are chosen independently
+			msg := liquidtypes.NewMsgBurnDerivative(w.addrs[op.A], w.vals[op.V], sdk.Coin{Denom: w.denomOf(op.D), Amount: sdkmath.NewIntFromBigInt(amt)})
 			if err := msg.ValidateBasic(); err != nil {
 				return err
 			}
